@@ -32,6 +32,27 @@ func c09Payload(sender, seq int) string {
 	return string(b)
 }
 
+// c09Form: which command method user-goroutine sender s uses for its q-th line (long payloads would be split by
+// Privmsg / Notice, so those go through Raw)
+func c09Form(s, q int) int {
+	if s < 3 || (s+q)%23 == 5 {
+		return 0
+	}
+	return (s*5 + q) % 8
+}
+
+var c09Headers = []string{"PRIVMSG #c :", "PRIVMSG #c :", "PONG :", "NOTICE #c :", "PING :", "TOPIC #c :", "AWAY :", "PONG :"}
+
+// c09Strip recognises one of our numbered lines whatever command carried it and returns what follows the "s"
+func c09Strip(l string) (string, bool) {
+	for _, h := range []string{"PRIVMSG #c :s", "PONG :s", "NOTICE #c :s", "PING :s", "TOPIC #c :s", "AWAY :s"} {
+		if strings.HasPrefix(l, h) && len(l) > len(h) && l[len(h)] >= '0' && l[len(h)] <= '9' {
+			return strings.TrimPrefix(l, h), true
+		}
+	}
+	return "", false
+}
+
 func c09Session(c *Ctx, nSenders, perSender int, pacing string, procs int) {
 	desc := fmt.Sprintf("send session senders=%d lines=%d pacing=%s", nSenders, perSender, pacing)
 	rp := map[string]interface{}{"op": "send-session", "senders": nSenders, "lines_each": perSender, "pacing": pacing}
@@ -73,6 +94,29 @@ func c09Session(c *Ctx, nSenders, perSender int, pacing string, procs int) {
 		}()
 	}
 	line := func(s, q int) string { return fmt.Sprintf("PRIVMSG #c :s%d-%d-%s", s, q, c09Payload(s, q)) }
+	// user goroutines issue their lines through different command methods (the property is about "every line handed
+	// to the client", not about Raw): the form is a function of (sender, sequence number), so the wire can be checked
+	issue := func(s, q int) {
+		body := fmt.Sprintf("s%d-%d-%s", s, q, c09Payload(s, q))
+		switch c09Form(s, q) {
+		case 1:
+			conn.Privmsg("#c", body)
+		case 2:
+			conn.Pong(body)
+		case 3:
+			conn.Notice("#c", body)
+		case 4:
+			conn.Ping(body)
+		case 5:
+			conn.Topic("#c", body)
+		case 6:
+			conn.Away(body)
+		case 7:
+			conn.Raw("PONG :" + body)
+		default:
+			conn.Raw("PRIVMSG #c :" + body)
+		}
+	}
 	var wg sync.WaitGroup
 	// sender 0 is a foreground handler, senders 1..2 background handlers (triggered by server lines), the rest user goroutines
 	hcount := 0
@@ -107,7 +151,11 @@ func c09Session(c *Ctx, nSenders, perSender int, pacing string, procs int) {
 		go func(s int) {
 			defer wg.Done()
 			for q := 0; q < perSender; q++ {
-				conn.Raw(line(s, q))
+				if s >= 3 {
+					issue(s, q)
+				} else {
+					conn.Raw(line(s, q))
+				}
 			}
 		}(s)
 	}
@@ -149,7 +197,9 @@ func c09Session(c *Ctx, nSenders, perSender int, pacing string, procs int) {
 	count := func() int {
 		n := 0
 		for _, l := range sess.srv.Lines() {
-			if strings.HasPrefix(l, "PRIVMSG #c :s") || strings.HasPrefix(l, "PONG :p") {
+			if strings.HasPrefix(l, "PONG :p") {
+				n++
+			} else if _, ok := c09Strip(l); ok {
 				n++
 			}
 		}
@@ -181,14 +231,14 @@ func c09Session(c *Ctx, nSenders, perSender int, pacing string, procs int) {
 			wire = append(wire, fmt.Sprintf("%d:%d", nSenders, q))
 			continue
 		}
-		if !strings.HasPrefix(l, "PRIVMSG #c :s") {
+		rest, isOurs := c09Strip(l)
+		if !isOurs {
 			if l != "" && !strings.HasPrefix(l, "NICK ") && !strings.HasPrefix(l, "USER ") && !strings.HasPrefix(l, "PING :sync") && !strings.HasPrefix(l, "PONG :sync") && !strings.HasPrefix(l, "CAP ") && !strings.HasPrefix(l, "PASS ") {
 				c.SpecFail("spec", desc, "", "a line nobody issued is on the wire: "+trunc(l, 80), rp)
 				return
 			}
 			continue // registration lines, sync markers
 		}
-		rest := strings.TrimPrefix(l, "PRIVMSG #c :s")
 		p := strings.SplitN(rest, "-", 3)
 		if len(p) != 3 {
 			c.SpecFail("spec", desc, "", "garbled line on the wire: "+trunc(l, 80), rp)
@@ -196,7 +246,7 @@ func c09Session(c *Ctx, nSenders, perSender int, pacing string, procs int) {
 		}
 		s, e1 := strconv.Atoi(p[0])
 		q, e2 := strconv.Atoi(p[1])
-		if e1 != nil || e2 != nil || p[2] != c09Payload(s, q) {
+		if e1 != nil || e2 != nil || p[2] != c09Payload(s, q) || (s >= 3 && l != c09Headers[c09Form(s, q)]+"s"+rest) || (s < 3 && !strings.HasPrefix(l, "PRIVMSG #c :s")) {
 			c.SpecFail("spec", desc, "", "line not written byte for byte: "+trunc(l, 80), rp)
 			return
 		}
